@@ -600,6 +600,11 @@ pub fn process_line(v: &Value, want_prop: &str, rep: &mut Report) {
     for e in embeddings(embs) {
         let r = std::panic::catch_unwind(std::panic::AssertUnwindSafe(|| {
             let rep = &mut *rep;
+            if want_prop == "C14" {
+                // the extreme of everything seen, whatever the ingestion path (long chunks: direct_ingestlong)
+                run_minmax(&steps, v, &e, rep);
+                return;
+            }
             if want_prop == "C20" || want_prop == "C16" {
                 run_mom::<average::Mean>(&steps, v, &e, rep);
                 run_mom::<average::Variance>(&steps, v, &e, rep);
